@@ -334,7 +334,7 @@ class Hand:
             sym = r.choice(["L", "mL", "µL", "nL", "pL", "fL"])
             return "%r %s" % (float(v / float(si.VOLUME[sym])), sym)
         own = gen.mild_sys(r)
-        return "%r %s" % (bare(v, own, dim), si.unit_string(own, dim, style=r.choice([0, 1, 2, 3])))
+        return "%r %s" % (bare(v, own, dim), si.unit_string(own, dim, style=r.choice([0, 1, 2, 3, 0, 1, 2, 3, 4, 5])))
 
     def perenv(self, eff, wr, zero):
         """eff: {env: value}; wr(value) writes one; None means 'leave the key out'"""
@@ -772,10 +772,22 @@ def alias_checks(cx, A, d0n, r):
                     continue
                 cx.count("alias_checks")
                 try:
-                    got = A["content"](read(A, kind, d))
+                    # the dictionary is handed over as it is (no copy): reading it leaves it the caller's own, so that it can
+                    # be read again (one network dictionary shared by two system dictionaries) or written to a file afterwards
+                    before = json.dumps(d, sort_keys=True)
+                    f_ = A["from_dict"]
+                    got = A["content"](f_(d))
                     ds = diff(canon, got, "", [])
                     if ds:
                         cx.add("alias-reads-differently", level=level, key=key, alias=al, differences=ds[:3])
+                    cx.count("dictionaries_read_twice")
+                    if json.dumps(d, sort_keys=True) != before:
+                        cx.add("reading-modified-the-dictionary", level=level, key=key, alias=al, before=before[:300],
+                               after=json.dumps(d, sort_keys=True)[:300])
+                    else:
+                        ds = diff(canon, A["content"](f_(d)), "", [])
+                        if ds:
+                            cx.add("alias-reads-differently", level=level, key=key, alias=al, second_reading=True, differences=ds[:3])
                 except Exception as e:
                     cx.exc("from_dict(alias)", e, what="alias-rejected", level=level, key=key, alias=al)
     return canon
